@@ -21,20 +21,20 @@ Definition d10_clause (c : clause) : bool :=
   negb (specificity3 c) && no_bounds c && is_empty (cOLoA c) && is_empty (cOUpA c) && is_empty (cOIdA c) &&
   (match cP c with Some _ => is_empty (cPID c) | None => is_empty (cPID c) || negb (is_empty (cPAncB c)) end) &&
   (match cO c with Some _ => is_empty (cOID c) | None => is_empty (cOID c) || negb (is_empty (cOAncB c)) end) &&
-  nodup_str (map fst (binders c)) && negb (match binders c with [] => true | _ => false end).
+  negb (match binders c with [] => true | _ => false end).
 
 (* ... and not OPTIONAL *)
 Definition d3_clause (c : clause) : bool := negb (c_opt c) && d10_clause c.
 
 (* the whole case: environment, graphs, clauses, output bindings *)
 Definition D3 (e : cfg) (gs : list graph) (cs : list clause) (outs : list str) : bool :=
-  ks e && negb (strlit_invalid e) && fix9 e && fix14 e && fixoid e && fixsb e &&
+  ks e && negb (strlit_invalid e) && fix9 e && fix14 e && fixoid e && fixsb e && fixzone e &&
   forallb graph_nodup gs && forallb d3_clause cs && negb (match cs with [] => true | _ => false end) && nodup_str outs.
 
 
 (* D10: as D3, but the clauses after the first may be OPTIONAL (sharing any number of bindings with the rows built so far);
    the LeftOptionalJoin repair F9 must be in *)
 Definition D10 (e : cfg) (gs : list graph) (cs : list clause) (outs : list str) : bool :=
-  ks e && negb (strlit_invalid e) && fix9 e && fix14 e && fixoid e && fixsb e &&
+  ks e && negb (strlit_invalid e) && fix9 e && fix14 e && fixoid e && fixsb e && fixzone e &&
   forallb graph_nodup gs && forallb d10_clause cs &&
   (match cs with c :: _ => negb (c_opt c) | [] => false end) && nodup_str outs.
